@@ -19,6 +19,10 @@ EXPLANATION = (
     "stroke width is width x sqrt(|det|) of the accumulated transform, or of the viewport transform alone under non-"
     "scaling-stroke; a percentage stroke width resolves against sqrt((w^2 + h^2)/2). Not decided: the cascade outcome on "
     "generated documents; source order between different selectors of equal specificity (rules are stored per selector)."
+    ' R14.2 decides the language of the comment-stripping pattern as an automaton (compile flags honoured):'
+    ' /**/, a comment holding a rule, a comment over two lines, a rule commented out on lines of its own are'
+    ' all matched; the empty text is not; a // comment stops at the line end; and the block body is lazy or'
+    ' cannot contain */.'
 )
 TECHNIQUE = (
     "static analysis (no execution): ordered specificity classification of style-assembly statements; def-use closure for comment-strip-before-match and accumulation order; source-order resolution of currentColor; canonical forms of stroke-width scaling"
